@@ -89,8 +89,15 @@ Definition strip_prefix (p bs : bytes) : option bytes :=
 (** json.Unmarshal into a key of the kind of the tree (RemoteConfig.KeysLike), 0..5 as [kind_tag] *)
 Definition kunmarshal (kind : N) (bs : bytes) : option key :=
   match kind with
-  | 0 => option_map KInt (parse_Z bs)
-  | 1 => option_map KUint (parse_N bs)
+  (* encoding/json rejects numbers that do not fit the 64-bit target type *)
+  | 0 => match parse_Z bs with
+         | Some z => if ((- 9223372036854775808 <=? z) && (z <=? 9223372036854775807))%Z then Some (KInt z) else None
+         | None => None
+         end
+  | 1 => match parse_N bs with
+         | Some n => if (n <=? 18446744073709551615)%N then Some (KUint n) else None
+         | None => None
+         end
   | 2 => option_map KStr (unquote bs)
   | 3 => match unquote bs with Some q => option_map KBytes (b64std_dec q) | None => None end
   | 4 => match bs with [] => None | _ => Some (KBlob bs) end
